@@ -483,6 +483,15 @@ theorem tieA_handle_downlink_macs_iter (snr : Int) (bytes : List Int) (hS : Stre
   rw [hc]
   exact h
 
+/-! non-vacuity: the FOpts of builder S's example frame (LinkADRReq DR5 / power 1 / mask 0x0007, DevStatusReq), then an
+RXParamSetupReq and a truncated NewChannelReq — through the regenerated iterator and accessors -/
+example : regenCmds [3, 0x51, 0x07, 0x00, 0x00, 6] = some [some (decCmd (3, [0x51, 7, 0, 0])), some (decCmd (6, []))] := by decide
+example : regenCmds [5, 0x23, 0x28, 0x76, 0x84, 7, 1] =
+    some [some (.RXParamSetupReq ⟨⟨0x23⟩, ⟨868100000⟩⟩), none] := by decide
+example : Stream [3, 0x51, 0x07, 0x00, 0x00, 6] := ⟨by decide, by decide⟩
+example : WfCmd (7, [3, 0x28, 0x76, 0x84, 0x50]) := ⟨rfl, by decide⟩
+example : view (.NewChannelReq ⟨[3, 0x28, 0x76, 0x84, 0x05]⟩) = some (.NewChannelReq ⟨3, ⟨868100000⟩, none⟩) := by decide
+
 #print axioms tieA_payload_accessors
 #print axioms tieA_acc_link_adr
 #print axioms tieA_acc_rx_param_setup
